@@ -49,6 +49,7 @@ META = {
                    "rule row.  unsat = equivalent; sat = a row, replayed on the real re object.  The translator is validated on "
                    "every run by concrete membership tests against Python's re on rows from the repo's own test corpus.",
     "assumptions": [
+        "a sample of the SMT queries (equivalent and deliberately broken references) is re-decided by the cvc5 1.0 binary; disagreement = harness error",
         "rows: printable ASCII + TAB, stripped, non-empty (what parse_to_tree yields for ASCII configs); non-ASCII rows only in h_keys",
         "z3 regex theory (z3-solver 4.x/5.x wheel) is trusted; translator validated concretely against Python re on every run",
         "literal words of rule rows are regex fragments (rule authors use them so); the reference keeps them verbatim",
@@ -81,6 +82,27 @@ def collect_compiled():
         for m in MODELS:
             hw = HardwareView(m, None)
             rbs[m] = prov.get_rulebook(hw)
+        # implicit-default rule texts (annet/implicit.py) for the hardware variants that have them
+        from annet import implicit
+
+        class _D:
+            def __init__(self, hw, tags=()):
+                self.hw = hw
+                self.tags = list(tags)
+        for m, tags in (("Huawei CE6870", ()), ("Huawei NE40E", ()), ("Huawei S5700", ()), ("Arista DCS-7368", ()),
+                        ("Cisco Nexus 3432", ()), ("Cisco Nexus 3132Q", ()), ("Cisco Nexus 9508", ("spine1",)),
+                        ("Cisco Catalyst 2960", ()), ("Cisco Catalyst 6500", ())):
+            implicit.compile_rules(_D(HardwareView(m, None), tags))
+        # ACL texts shipped with the routing-policy generators
+        import textwrap
+        from annet.annlib.rbparser.acl import compile_acl_text
+        from annet import rpl_generators as rg
+        for cls in (rg.RoutingPolicyGenerator, rg.PrefixListFilterGenerator, rg.CommunityListGenerator, rg.AsPathFilterGenerator,
+                    rg.RDFilterFilterGenerator):
+            for vendor in ("huawei", "arista"):
+                fn = getattr(cls, "acl_" + vendor, None)
+                if fn is not None:
+                    compile_acl_text.__wrapped__(textwrap.dedent(fn(None, None)), vendor)
     finally:
         syntax.compile_row_regexp = orig
     return seen, rbs
@@ -197,6 +219,59 @@ def z_lang():
     res["skipped"] = skipped[:20]
     res["unknown"] = unknown[:20]
     return res
+
+
+def z_cross():
+    """second solver: a sample of the equivalence queries (must be unsat) and of deliberately broken references (must be sat)
+    is dumped as SMT-LIB and re-decided by the cvc5 binary; a disagreement is a harness error, never a violation"""
+    import subprocess
+    import tempfile
+    import z3
+    from vt import rx2z3 as rx
+    targets = [t for t in _lang_targets("quick") if re.search(r"[*~]", t[0])]
+    rnd = random.Random(rt.SEED + 7)
+    rnd.shuffle(targets)
+    n = 10 if rt.TIER == "quick" else 50
+    dom = rx.row_domain()
+    x = z3.String("row")
+    agree = disagree = skipped = 0
+    t_cvc = 0.0
+    import time as _t
+    for (row, flags, pat, origin) in targets[:n]:
+        src, fl = ref.ref_rule_regex(row, flags)
+        for variant in ("equivalent", "broken"):
+            rsrc = src if variant == "equivalent" else src.replace("\\s+", "\\s*", 1)
+            if variant == "broken" and rsrc == src:
+                continue
+            try:
+                q = z3.Solver()
+                q.set("timeout", 15000)
+                q.add(z3.InRe(x, dom), z3.Xor(z3.InRe(x, rx.match_lang(pat)), z3.InRe(x, rx.match_lang(re.compile(rsrc, fl)))))
+                zr = str(q.check())
+            except (rx.Unsupported, re.error):
+                continue
+            with tempfile.NamedTemporaryFile("w", suffix=".smt2", dir="/var/tmp", delete=False) as f:
+                f.write("(set-logic QF_SLIA)\n" + q.to_smt2())
+                fn = f.name
+            t0 = _t.time()
+            try:
+                out = subprocess.run(["cvc5", "--strings-exp", "--tlimit=15000", fn], capture_output=True, text=True, timeout=40).stdout
+            except Exception:  # noqa
+                out = "timeout"
+            t_cvc += _t.time() - t0
+            os.unlink(fn)
+            cr = out.strip().split("\n")[0] if out.strip() else "unknown"
+            if zr in ("sat", "unsat") and cr in ("sat", "unsat"):
+                same = zr == cr
+                agree += same
+                disagree += not same
+                rt.record({"rule": row, "variant": variant, "z3": zr, "cvc5": cr}, True, [row, variant])
+                if not same:
+                    return {"verdict": "harness_error", "message": "z3 says %s, cvc5 says %s for rule %r (%s)" % (zr, cr, row, variant)}
+            else:
+                skipped += 1
+    return {"verdict": "confirmed", "queries": agree + disagree + skipped, "solver_s": round(t_cvc, 2),
+            "counters": {"cross_agree": agree, "cross_not_compared": skipped}}
 
 
 def replay_lang(case):
@@ -496,6 +571,7 @@ def plan(tier):
         dict(name="1.z_lang", func="z_lang", kind="py", shards=16, timeout=900 if q else 3000,
              bound="all rows (any length) over printable ASCII+TAB"),
         dict(name="3.z_reverse", func="z_reverse", kind="py", shards=8, timeout=900 if q else 3000),
+        dict(name="4.z_cross[cvc5]", func="z_cross", kind="py", shards=1, timeout=600 if q else 3000),
     ]
     n = 8 if q else len(KEY_PATTERNS)
     for i in range(n):
